@@ -264,6 +264,9 @@ def borrowed_place(T, operand, bb, idx, depth=0):
     if pl is None:
         return None
     defs = T.reaching(pl, bb, idx)
+    if len(defs) == 1 and defs[0][0] == "param" and len(pl) == 1:
+        # a reference parameter: what it points to is `(*param)`
+        return (pl[0], "*")
     if len(defs) != 1 or defs[0][0] != "s":
         return None
     _, b, i = defs[0]
